@@ -7,7 +7,13 @@ extra positional / keyword arguments (`*args, **kwargs`) that the wrapper forwar
 The undecorated evaluation function is a pure function `f : X → A → List α`; what the property
 observes of it besides the returned fitness is *on which arguments it was called*, so every
 wrapper returns the fitness together with the call log of `f` (in call order).
+
+`individual.fitness.weights` is an attribute lookup through the MRO of the individual's OWN fitness
+class; the `…Cls` variants at the end take the class table of `Core/FitClass.lean` (C01's model of
+families of related fitness classes) and the individual's class instead of the weights.
 -/
+import DeapModel.Core.FitClass
+
 namespace Penalty
 
 /-- A Python value that is either a non-`Sequence` (a number, which the code wraps in
@@ -105,6 +111,45 @@ def closestValidPenalty (feas : X → Bool) (closest : X → X) (alpha : α)
       let dists := closestDists dist (weights x) fInd x                   -- :131-135
       ⟨some (zip3With (fun f w d => f - w * alpha * d)                    -- :139
           fFbl ws (dists.upTo ws.length)), [(fInd, a)]⟩
+
+/-! ### Individuals whose fitness classes belong to a family of related classes
+
+`individual.fitness.weights` (constraint.py:62, 64, 126, 131) reads the class attribute `weights` of
+`type(individual.fitness)` through the MRO: `Fitness.lookupWeights tbl (cls x)`.  The wrappers read nothing else
+of the class and write nothing to it (the unchanged library keeps no other per-class state), so a decorated call
+is a function of the table and returns no new table.  `none` = the class is abstract or does not exist: no such
+individual can be made (`Fitness.__init__` raises `TypeError`). -/
+
+def deltaPenaltyCls (tbl : Fitness.ClassTable α) (cls : X → Nat) (feas : X → Bool) (delta : SV α)
+    (dist : Option (X → SV α)) (f : X → A → List α) (x : X) (a : A) : Option (Out X A α) :=
+  (Fitness.lookupWeights tbl (cls x)).map fun w => deltaPenalty feas delta dist (fun _ => w) f x a
+
+def closestValidPenaltyCls (tbl : Fitness.ClassTable α) (cls : X → Nat) (feas : X → Bool) (closest : X → X)
+    (alpha : α) (dist : Option (X → X → SV α)) (f : X → A → List α) (x : X) (a : A) : Option (Out X A α) :=
+  (Fitness.lookupWeights tbl (cls x)).map fun w => closestValidPenalty feas closest alpha dist (fun _ => w) f x a
+
+/-- One call of a history: which decorator (`false` = DeltaPenalty, `true` = ClosestValidPenalty; the decorator
+parameters are those of the object the call goes through), on which individual, with which extras. -/
+structure HCall (X A α : Type) where
+  closestKind : Bool
+  feas : X → Bool
+  delta : SV α
+  dist1 : Option (X → SV α)
+  closest : X → X
+  alpha : α
+  dist2 : Option (X → X → SV α)
+  f : X → A → List α
+  x : X
+  a : A
+
+def HCall.run (tbl : Fitness.ClassTable α) (cls : X → Nat) (c : HCall X A α) : Option (Out X A α) :=
+  if c.closestKind then closestValidPenaltyCls tbl cls c.feas c.closest c.alpha c.dist2 c.f c.x c.a
+  else deltaPenaltyCls tbl cls c.feas c.delta c.dist1 c.f c.x c.a
+
+/-- A history of decorated calls in one process: the class table is read, never written, so the history is the
+list of its calls. -/
+def runHistory (tbl : Fitness.ClassTable α) (cls : X → Nat) (h : List (HCall X A α)) : List (Option (Out X A α)) :=
+  h.map (HCall.run tbl cls)
 
 end
 
